@@ -263,18 +263,18 @@ Proof.
   destruct (a_st a) eqn:Est; try (intros H; inversion H; subst; apply mono_refl).
   (* Restarting *)
   intros H.
-  destruct (handle roles s u TT 0 snd) as [[s1 o1] p1] eqn:E1. unfold bind in H. destruct p1.
-  - inversion H; subst. apply keep_mono. eapply keep_handle; exact E1.
+  destruct (provide s (a_tok a)) as [s0 inst] eqn:Ep.
+  assert (K0 : keep s s0) by (apply keep_same_actors; unfold provide in Ep; inversion Ep; subst; reflexivity).
+  destruct (handle roles s0 u TT 0 snd) as [[s1 o1] p1] eqn:E1. unfold bind in H. destruct p1.
+  - inversion H; subst. apply keep_mono. eapply keep_trans; [exact K0|eapply keep_handle; exact E1].
   - destruct (handle roles s1 u TTS 0 snd) as [[s2 o2] p2] eqn:E2. destruct p2.
-    + inversion H; subst. apply keep_mono. eapply keep_trans; [eapply keep_handle; exact E1|eapply keep_handle; exact E2].
-    + assert (K12 : keep s s2) by (eapply keep_trans; [eapply keep_handle; exact E1|eapply keep_handle; exact E2]).
-      destruct (provide s2 (a_tok a)) as [s3 inst] eqn:Ep.
-      assert (K3 : keep s2 s3) by (apply keep_same_actors; unfold provide in Ep; inversion Ep; subst; reflexivity).
-      destruct (keep_status _ _ _ _ (keep_trans _ _ _ K12 K3) Ea) as (a3 & Ha3 & Hs3).
+    + inversion H; subst. apply keep_mono. eapply keep_trans; [exact K0|]. eapply keep_trans; [eapply keep_handle; exact E1|eapply keep_handle; exact E2].
+    + assert (K12 : keep s s2) by (eapply keep_trans; [exact K0|]; eapply keep_trans; [eapply keep_handle; exact E1|eapply keep_handle; exact E2]).
+      destruct (keep_status _ _ _ _ K12 Ea) as (a3 & Ha3 & Hs3).
       match type of H with context [start_instance ?r ?x ?y ?z ?w] => destruct (start_instance r x y z w) as [[s9 o9] p9] eqn:E9 end.
       inversion H; subst.
-      eapply mono_trans; [apply keep_mono; eapply keep_trans; [exact K12|exact K3]|].
-      apply mono_trans with (s2 := upd_actor s3 u (fun b => w_st Alive (w_inst inst b))).
+      eapply mono_trans; [apply keep_mono; exact K12|].
+      apply mono_trans with (s2 := upd_actor s2 u (fun b => w_st Alive (w_inst inst b))).
       * intros v b Hg. unfold upd_actor. rewrite Ha3. destruct (Nat.eq_dec u v) as [->|Hne].
         -- eexists. split; [eapply get_put_same; exact Ha3|]. rewrite Ha3 in Hg. inversion Hg; subst.
            split; [intros Ht; congruence|repeat split].
